@@ -70,8 +70,8 @@ func PercentageFromString(str string) (Percentage, error) {
 // PercentageFromAmount provides the percentage value of the amount ensuring it
 // is correctly scaled.
 func PercentageFromAmount(a Amount) Percentage {
-	a2 := a.Rescale(a.exp + 2).Divide(factor100)
-	return Percentage{amount: a2}
+	// a hundredth of the amount has the same digits and two more decimals
+	return Percentage{amount: Amount{value: a.value, exp: a.exp + 2}}
 }
 
 // Value provides the percentage amount's value
